@@ -132,11 +132,15 @@ package types
 //@ type RefundMapT = map[uint64]RefundInfoList
 //@ spec macro fn schedHas(l RefundSlice, id Bytes) bool = exists i int :: 0 <= i && i < len(l) && l[i] != nil && bytes(l[i].Id) == id
 
+// ghost schedtotal: the sum of all amounts put on refund schedules so far (C20 conservation: what is taken off a
+// miner's stake is what gets scheduled for its owner).
+//@ ghost schedtotal Int
 //@ func RefundInfoList.AddRefundInfo
 //@   option trusted
 //@   requires refundInfoList != nil
 //@   ensures schedHas(refundInfoList.List, old(bytes(id)))
-//@   modifies refundInfoList.List, heap("math/big.Int"), heap("middleware/types.RefundInfo")
+//@   ensures [total] value != nil ==> ghost(schedtotal) == old(ghost(schedtotal)) + old(big(value))
+//@   modifies refundInfoList.List, heap("math/big.Int"), heap("middleware/types.RefundInfo"), ghost(schedtotal)
 
 //@ func GetRefundInfo
 //@   option trusted
